@@ -110,7 +110,8 @@ def windows(run, tier, table):
                 run.violation({"kind": "window_negative_sample", "window": kind, "width": w, "min": float(got.min())})
             if w >= 8 and abs(got.sum() - 1.0) > 3.0 / w:
                 run.violation({"kind": "window_does_not_sum_to_one", "window": kind, "width": w, "sum": float(got.sum())})
-    for order in (1, 2, 3, 4, 5):
+    # (high orders on long windows too: t^(order-1) leaves the 64-bit integers long before it leaves the doubles)
+    for order in (1, 2, 3, 4, 5, 8, 12, 16):
         for peak in (0.5, 0.75, 0.9):
             for w in [0, 1, 2, 3, 8, 10, 25, 100, 400, 1000] + ([] if tier == "quick" else list(range(11, 200, 3))):
                 g = filters.GammaWindow(order=order, peak=peak).get_impulse_response(w)
